@@ -9,6 +9,12 @@ use crate::state::State;
 pub(crate) unsafe fn cc_alloc<T: Trace + 'static>(layout: Layout, state: &State) -> NonNull<CcBox<T>> {
     state.record_allocation(layout);
     match NonNull::new(alloc(layout) as *mut CcBox<T>) {
+        #[cfg(feature = "verif-hooks")]
+        Some(ptr) => {
+            crate::verif_hooks::notify(crate::verif_hooks::AllocEvent::BoxAlloc, ptr.as_ptr() as usize, layout);
+            ptr
+        },
+        #[cfg(not(feature = "verif-hooks"))]
         Some(ptr) => ptr,
         None => handle_alloc_error(layout),
     }
@@ -21,6 +27,8 @@ pub(crate) unsafe fn cc_dealloc<T: ?Sized + Trace + 'static>(
     state: &State
 ) {
     state.record_deallocation(layout);
+    #[cfg(feature = "verif-hooks")]
+    crate::verif_hooks::notify(crate::verif_hooks::AllocEvent::BoxDealloc, ptr.as_ptr() as *const () as usize, layout);
     dealloc(ptr.cast().as_ptr(), layout);
 }
 
@@ -29,6 +37,12 @@ pub(crate) unsafe fn cc_dealloc<T: ?Sized + Trace + 'static>(
 pub(crate) unsafe fn alloc_other<T>() -> NonNull<T> {
     let layout = Layout::new::<T>();
     match NonNull::new(alloc(layout) as *mut T) {
+        #[cfg(feature = "verif-hooks")]
+        Some(ptr) => {
+            crate::verif_hooks::notify(crate::verif_hooks::AllocEvent::OtherAlloc, ptr.as_ptr() as usize, layout);
+            ptr
+        },
+        #[cfg(not(feature = "verif-hooks"))]
         Some(ptr) => ptr,
         None => handle_alloc_error(layout),
     }
@@ -38,6 +52,8 @@ pub(crate) unsafe fn alloc_other<T>() -> NonNull<T> {
 #[inline]
 pub(crate) unsafe fn dealloc_other<T>(ptr: NonNull<T>) {
     let layout = Layout::new::<T>();
+    #[cfg(feature = "verif-hooks")]
+    crate::verif_hooks::notify(crate::verif_hooks::AllocEvent::OtherDealloc, ptr.as_ptr() as usize, layout);
     dealloc(ptr.cast().as_ptr(), layout);
 }
 
